@@ -600,7 +600,7 @@ def check_chunks(prog, rep):
                                          "nprogeny=nprogeny, nself=nself, gmapfn=gmapfn).mat[tuple(%s) + (slice(None),)])" % (cc, cc), mode="eval").body)
         retn = [x.value.id for x in body_nodoc(f.node) if isinstance(x, ast.Return) and isinstance(x.value, ast.Name)]
         xm = [p_ for p_ in f.params() if p_ == "xmap"] or [f.params()[-1]]
-        okhdr = dump(lp.iter) == "enumerate(%s)" % xm[0] and retn and "".join(dump(store.targets[0]).split()) == "%s[%s,:]" % (retn[0], i)
+        okhdr = dump(lp.iter) == "enumerate(%s)" % xm[0] and retn and "".join(dump(store.targets[0]).split()) in ("%s[%s,:]" % (retn[0], i), "%s[%s]" % (retn[0], i))
         if val == ref and okhdr:
             rep.ok("R6-chunks", construct, "uc[i] = epgc . bv[cross] + intensity * sqrt(var[cross]) for every row of the cross map")
         elif not okhdr:
